@@ -38,6 +38,7 @@ func init() {
 		json.Unmarshal(raw, &d)
 		return c14Extra(d)
 	}
+	replayers["C14/roundtrip-wide"] = replayers["C14/roundtrip"]
 	replayers["C14/wrappers"] = func(c *Ctx, raw json.RawMessage) string {
 		var cs struct {
 			D Directive
@@ -116,6 +117,7 @@ func c14RoundTrip(d Directive) string {
 			redact.Sprintf(format, append(a, recSafeFormatter{st})...)
 		}},
 	}
+	var first *fstate
 	for _, p := range printers {
 		var s1, s2 fstate
 		p.run(f, &s1, append([]interface{}{}, stars...))
@@ -125,6 +127,16 @@ func c14RoundTrip(d Directive) string {
 		}
 		if s1.Verb != d.Verb {
 			return fmt.Sprintf("%s %s: method saw verb %q", p.name, d, s1.Verb)
+		}
+		// redact's printer presents the same state as fmt's for the same directive
+		// (except where the zero flag meets a minus flag: changed across Go releases)
+		if !d.zeroMeetsMinus() {
+			if first == nil {
+				c := s1
+				first = &c
+			} else if first.key() != s1.key() {
+				return fmt.Sprintf("%s %s: state %s, but fmt's State presents %s", p.name, d, s1.key(), first.key())
+			}
 		}
 		bare := !s1.Plus && !s1.Minus && !s1.Sharp && !s1.Sp && !s1.Zero && !s1.WidOK && !s1.PrecOK && s1.Verb == 'v'
 		if s1.JustV != bare {
@@ -328,6 +340,18 @@ func c14Wrappers(d Directive, vi int) string {
 
 func checkC14(c *Ctx) {
 	sp := fullDirectives()
+	wide := wideDirectives()
+	c.Section("C14/roundtrip-wide", map[string]interface{}{"widths": len(wide.Wids), "precisions": len(wide.Precs), "what": "widths/precisions congruent modulo 2^8 and 2^16 to smaller ones of the same space"}, wide.Size(), func(i int, w *Worker) {
+		d := wide.Get(i)
+		if d.Wid < 9 && d.Prec < 6 {
+			return // covered by C14/roundtrip
+		}
+		w.Eval()
+		if dt := c14RoundTrip(d); dt != "" {
+			w.Fail("roundtrip", d, dt)
+		}
+		w.Seen(uint64(i))
+	})
 	c.Section("C14/roundtrip", map[string]interface{}{"flag_subsets": 32, "widths": len(widths), "precisions": len(precs), "verbs": len(sp.Verbs), "printers": "fmt State; redact printer via Formatter; redact printer via SafeFormatter"}, sp.Size(), func(i int, w *Worker) {
 		d := sp.Get(i)
 		w.Eval()
